@@ -100,7 +100,11 @@ func decodeLines(s string) []genLine {
 func varyLine(rng interface{ Intn(int) int }, l genLine) string {
 	if l.class != "E" {
 		if l.class == "J" {
-			return []string{"{bad", "", "[]", `{"ip":5}`, `{"port":"80"}`, `{"ip":"1.2.3.4","port":1.5}`, `{"ip":"1.2.3.4","port":99999999999999999999}`, "nul", `{"ip":"1.2.3.4"`, `{"ip":"1.2.3.4"} x`}[rng.Intn(10)]
+			return []string{"{bad", "", "[]", `{"ip":5}`, `{"port":"80"}`, `{"ip":"1.2.3.4","port":1.5}`, `{"ip":"1.2.3.4","port":99999999999999999999}`, "nul", `{"ip":"1.2.3.4"`, `{"ip":"1.2.3.4"} x`,
+				// a complete entry followed by something else on the same line (two entries that lost their newline, a stray
+				// brace, a comment): not an entry
+				`{"ip":"1.2.3.4","port":80} x`, `{"ip":"1.2.3.4","port":80}{"ip":"1.2.3.5","port":80}`, `{"ip":"1.2.3.4","port":80}}`,
+				`{"ip":"1.2.3.4","port":80} # comment`, `{"ip":"1.2.3.4","port":80},`}[rng.Intn(15)]
 		}
 		return l.text
 	}
